@@ -435,7 +435,10 @@ func c15Kqueue(a *An) {
 			if okGuard {
 				var bits uint64
 				for _, l := range r.Cond[0] {
-					if l.A.Kind != AkBit || l.Neg {
+					if strings.Contains(l.A.Subj, "rangeindex") || strings.Contains(l.A.Subj, "next(range(") {
+						continue // the loop over a data table has finished: not part of the guard
+					}
+					if (l.A.Kind != AkBit && l.A.Kind != AkAll) || l.Neg {
 						okGuard = false
 					}
 					bits |= l.A.Bits
@@ -644,8 +647,15 @@ func c15Supports(a *An, inotify bool) {
 		}
 		k, ok := r.Results[0].(*ssa.Const)
 		if !ok || k.Value == nil {
-			a.R.ob("C15.supports", "xSupports", "xSupports returns constants under bit tests of its argument", a.P.instrPos(r), false, "non-constant result")
-			return
+			// a boolean expression: true exactly when its literal holds
+			l := v.Ctx.lit(r.Results[0])
+			if l.A.Kind == AkOpaque || l.A.Kind == AkPred {
+				a.R.ob("C15.supports", "xSupports", "xSupports is a bit test of its argument", a.P.instrPos(r), false, "unrecognised result expression "+stripIDs(v.Ctx.path(r.Results[0])))
+				return
+			}
+			trueCond = trueCond.or(v.Cond.andLit(l))
+			falseCond = falseCond.or(v.Cond.andLit(Lit{A: l.A, Neg: !l.Neg}))
+			continue
 		}
 		if k.Value.String() == "true" {
 			trueCond = trueCond.or(v.Cond)
